@@ -169,6 +169,22 @@ def _other_gate(ck, p, f, cfg, pv, rule, key, bi, t, what):
     between rules and advanced by a consuming search -> REFUTED; any other config-derived gate -> UNDECIDED"""
     loops = [body for body in cfg.natural_loops().values() if bi in body]
     body = min(loops, key=len) if loops else set(range(len(f.blocks)))
+    # the same gate as an adaptor: the map of rules is filtered by is_rule_enabled(key) before the loop runs the survivors
+    lin = t["args"][0]
+    for o in arg_roots(f, pv, lin):
+        if o[0] != "call" or method_of(o) != "filter":
+            continue
+        ft = f.blocks[o[1]]["t"]
+        for x in pv.trace_operand(ft["args"][-1]):
+            if x[0] == "agg" and x[1] == "closure" and x[2] in p.fns:
+                c = p.fns[x[2]]
+                cpv = Prov(c)
+                gates = [(cb, ct) for cb, ct in c.calls() if inst_of(ct) == "harper_core::linting::lint_group::{impl}::is_rule_enabled"]
+                ret_is_gate = any(o2[0] == "call" and any(o2[1] == cb for cb, _ in gates) for o2 in flatten(cpv.trace_local(0)))
+                key_is_item = any(any(y[0] == "arg" and y[1] == 2 for y in arg_roots(c, cpv, ct["args"][1])) for _, ct in gates)
+                if gates and ret_is_gate and key_is_item:
+                    ck.proved(rule, key, f.loc(t["ln"]), "%s runs over the rules that passed filter(|(key, _)| config.is_rule_enabled(key)): the same gate as an iterator adaptor" % what)
+                    return
     gating = []
     for sb in body:
         tt = f.blocks[sb]["t"]
